@@ -63,3 +63,142 @@ Definition oci_child_sees_lower (c : cfg) (ch : children) (lower_is_dir : bool) 
               end
   | None => false
   end.
+
+(* ====================================================================================================
+   Whole trees and stacks of layers.
+
+   A layer is a tree of metadata entries [ltree] (marker files included, exactly as the metadata store holds them);
+   the root filesystem built from the layers below is a tree [rnode] of served entries. Both semantics are given as
+   "apply one layer directory on top of the lower directory" and folded over the stack, lowest layer first:
+     - [over_tree]: overlayfs over what the node API serves for the layer — every decision is taken from
+       [lookup_spec] / the served opaque xattr through [overlay_origin] and [overlay_child_sees_lower] (a kernel walking the
+       layer sees exactly the names for which Lookup succeeds: C07_list_iff_lookup);
+     - [oci_tree]: image-spec application of the layer — every decision is taken from the marker files through
+       [oci_origin] and [oci_child_sees_lower].
+   The two are compared by path resolution ([resolve]). *)
+Inductive ltree := LT (e : ent) (kids : list (string * ltree)).
+Inductive rnode := RN (e : ent) (a : fattr) (kids : list (string * rnode)).
+
+Definition lt_ent (t : ltree) : ent := match t with LT e _ => e end.
+Definition lt_kids (t : ltree) : list (string * ltree) := match t with LT _ k => k end.
+
+Definition alookup {A} (l : list (string * A)) (n : string) : option A :=
+  match find (fun p => (fst p =? n)%string) l with Some p => Some (snd p) | None => None end.
+
+(* the children map of a directory of the layer, as Model/Node.v sees it *)
+Definition view (kids : list (string * ltree)) : children := map (fun p => (fst p, lt_ent (snd p))) kids.
+
+Definition sub_cfg (c : cfg) : cfg := mkCfg false (c_base c) (c_mode c).
+
+Definition lower_is_dir (lower : list (string * rnode)) (n : string) : bool :=
+  match alookup lower n with Some (RN _ a _) => is_dir_attr a | None => false end.
+Definition lower_kids (lower : list (string * rnode)) (n : string) : list (string * rnode) :=
+  match alookup lower n with Some (RN _ a k) => if is_dir_attr a then k else [] | None => [] end.
+
+Definition from_lower (o : origin) : bool := match o with FromLower => true | _ => false end.
+
+Fixpoint over_tree (c : cfg) (t : ltree) (lower : list (string * rnode)) : list (string * rnode) :=
+  match t with
+  | LT self kids =>
+      let ch := view kids in
+      flat_map (fun p =>
+          match p with
+          | (n, tn) =>
+              match overlay_origin c self ch true n with
+              | FromUpper e a =>
+                  [(n, RN e a (if is_dir_attr a
+                               then over_tree (sub_cfg c) tn
+                                      (if overlay_child_sees_lower c self ch (lower_is_dir lower n) n then lower_kids lower n else [])
+                               else []))]
+              | _ => []
+              end
+          end) kids
+      ++ filter (fun q => from_lower (overlay_origin c self ch true (fst q))) lower
+  end.
+
+Fixpoint oci_tree (c : cfg) (t : ltree) (lower : list (string * rnode)) : list (string * rnode) :=
+  match t with
+  | LT self kids =>
+      let ch := view kids in
+      flat_map (fun p =>
+          match p with
+          | (n, tn) =>
+              if image_name c n then
+                match oci_origin c ch true n with
+                | FromUpper e a =>
+                    [(n, RN e a (if is_dir_attr a
+                                 then oci_tree (sub_cfg c) tn
+                                        (if oci_child_sees_lower c ch (lower_is_dir lower n) n then lower_kids lower n else [])
+                                 else []))]
+                | _ => []
+                end
+              else []
+          end) kids
+      ++ filter (fun q => from_lower (oci_origin c ch true (fst q))) lower
+  end.
+
+(* path resolution in a root filesystem: the entry and the attributes of the last component *)
+Fixpoint resolve (l : list (string * rnode)) (p : list string) : option (ent * fattr) :=
+  match p with
+  | [] => None
+  | n :: p' =>
+      match alookup l n with
+      | None => None
+      | Some (RN e a k) =>
+          match p' with
+          | [] => Some (e, a)
+          | _ => if is_dir_attr a then resolve k p' else None
+          end
+      end
+  end.
+
+(* a stack = the layers lowest first, each with its configuration (its own baseInode; c_root = true) *)
+Definition stack := list (cfg * ltree).
+Definition overlay_stack (s : stack) : list (string * rnode) := fold_left (fun acc ct => over_tree (fst ct) (snd ct) acc) s [].
+Definition oci_stack (s : stack) : list (string * rnode) := fold_left (fun acc ct => oci_tree (fst ct) (snd ct) acc) s [].
+
+(* ---------- the allowed class, as a boolean predicate ---------- *)
+Fixpoint nodupb (l : list string) : bool :=
+  match l with
+  | [] => true
+  | x :: t => negb (existsb (fun y => (y =? x)%string) t) && nodupb t
+  end.
+
+(* attributes a kid is served with, up to the inode number (which does not matter for file type and rdev) *)
+Definition kid_attr (t : ltree) : fattr := entry_to_attr 0 (e_attr (lt_ent t)).
+
+Fixpoint allowed_tree (c : cfg) (t : ltree) : bool :=
+  match t with
+  | LT self kids =>
+      let ch := view kids in
+      (* the children are a map *)
+      nodupb (map fst kids)
+      (* the directory entry does not itself carry an overlay opaque xattr *)
+      && forallb (fun a => match assoc (a_xattrs (e_attr self)) a with None => true | Some _ => false end) (opaque_xattrs (c_mode c))
+      (* in the layer root: no opaque marker (overlayfs never consults the opaque xattr of a lower root) and no entry
+         under the reserved name of the state directory *)
+      && (if c_root c then negb (is_opaque ch) && negb (existsb (fun p => (fst p =? state_dir_name)%string) kids) else true)
+      && forallb (fun p =>
+           match p with
+           | (n, tn) =>
+               (* metadata ids fit the inode space *)
+               (match ino_of (c_base c) (e_id (lt_ent tn)) with Some _ => true | None => false end)
+               (* no real 0/0 character device (overlayfs itself reads it as a whiteout) *)
+               && (if image_name c n then negb (is_whiteout_dev (kid_attr tn)) else true)
+               (* THE class the property excludes: a whiteout for n together with a directory n *)
+               && negb (whited ch n && is_dir_attr (kid_attr tn))
+               && allowed_tree (sub_cfg c) tn
+           end) kids
+  end.
+
+Definition allowed_stack (s : stack) : bool := forallb (fun ct => c_root (fst ct) && allowed_tree (fst ct) (snd ct)) s.
+
+(* path components a kernel can walk and that can belong to an image *)
+Definition name_ok (root : bool) (n : string) : bool :=
+  negb (n =? "")%string && negb (is_dot n) && negb (has_wh n)
+  && (if root then negb (is_landmark n) && negb (n =? state_dir_name)%string else true).
+Definition path_ok (p : list string) : bool :=
+  match p with
+  | [] => true
+  | n :: p' => name_ok true n && forallb (name_ok false) p'
+  end.
